@@ -22,7 +22,8 @@ RULE = ("passwords over printable ASCII (0x20..0x7e) minus {?, \"} and (mostly) 
         "property statement). chk: accepted and rejected passwords (128/129/300 characters, '?', '\"', backslash, empty, "
         "non-ASCII). dec7: a malformed stream for the decoder (odd length, one missing digit, lower case, non-hex, signs, "
         "blanks, line feeds, non-numeric salt, two characters, empty) and the CiscoPassword(ep).decrypt_type_7() calling form, "
-        "compared with the model only. "
+        "compared with the model only. dec8/dec9: decrypt_type_8 / decrypt_type_9 on well-formed $8$/$9$ hashes, type-7 strings, "
+        "passwords and junk (they must never return a value; the exception class is compared with the model). "
         "non-trivial = a type-7 case whose key index wraps (salt + length > 53) or a type 5/8/9 hash; distinct by request line. "
         "Not generated: lone surrogates, non-ASCII decimal digits in a type-7 string. A NUL inside a type-5 password is generated "
         "(passlib raises ValueError, modelled). The oracle judges only inputs inside the property's quantifier (salts 0..52, "
@@ -33,7 +34,8 @@ LEVEL_TEXT = ("Theorems (Lean 4, all inputs): the library's decrypt_type_7 walk 
               "password pwd_check accepts; the generated key table equals the well-known constant; pwd_check accepts exactly "
               "length <= 127 without a character of the generated set, which contains '?' and '\"'; the std->Cisco base64 map is a "
               "bijection of the 64 symbols; type 8/9 output is $k$ + 14 salt chars + $ + 43 Cisco-alphabet chars with the salt "
-              "recoverable by splitting on '$'; the generated KDF parameters are sha256/20000/32 and 16384/1/1/32. "
+              "recoverable by splitting on '$'; the generated KDF parameters are sha256/20000/32 and 16384/1/1/32; "
+              "decrypt_type_8 / decrypt_type_9 answer NotImplementedError for every argument (no plaintext is ever claimed for a one-way hash). "
               "PARTIAL: that the hash bytes are PBKDF2 / scrypt / MD5-crypt output is not proved (the KDF is an opaque parameter); "
               "every run recomputes each generated hash from its embedded salt with independent code and compares.")
 LEVEL_NOTE = ("Trusted: Lean kernel; axioms propext/Classical.choice/Quot.sound only; the correspondence harness; passlib "
@@ -60,7 +62,7 @@ STD64 = "ABCDEFGHIJKLMNOPQRSTUVWXYZabcdefghijklmnopqrstuvwxyz0123456789+/"
 CISCO64 = "./0123456789ABCDEFGHIJKLMNOPQRSTUVWXYZabcdefghijklmnopqrstuvwxyz"
 ALPHA = [chr(c) for c in range(0x20, 0x7F) if chr(c) not in '?"\\']
 LENS = [1, 2, 52, 53, 54, 106, 107, 126, 127]
-KINDS = ("chk", "dec7", "dec7o", "ref7", "lib7", "h5", "h8", "h9")
+KINDS = ("chk", "dec7", "dec7o", "ref7", "lib7", "h5", "h8", "h9", "dec8", "dec9")
 
 
 # ------------------------------------------------------------------ independent reference code (never calls the library)
@@ -154,6 +156,8 @@ def mk(kind, pwd="", salt=0, seed=0, ep="", origin="gen"):
         c["req"] = wire.req("pwd", "chk", wire.enc_str(pwd))
     elif kind == "dec7":
         c["req"] = wire.req("pwd", "dec7", wire.enc_str(ep))
+    elif kind in ("dec8", "dec9"):     # decrypt_type_8/9(ep): one-way hashes, nothing to decrypt
+        c["req"] = wire.req("pwd", kind, wire.enc_str(ep))
     elif kind == "dec7o":       # CiscoPassword(pwd).decrypt_type_7(ep): `pwd` carries the constructor argument
         c["req"] = wire.req("pwd", "dec7o", wire.enc_str(pwd), wire.enc_str(ep))
     elif kind == "ref7":
@@ -278,6 +282,22 @@ def cases(rng, tier):
         good = py_encode7(rng.randint(0, 52), rand_pwd(rng, rng.choice([1, 2, 9, 60])))
         a, b = rng.choice([(good, ""), ("", good), (good, malformed7(rng)), (malformed7(rng), ""), ("", "")])
         yield mk("dec7o", pwd=a, ep=b)
+    # --- decrypt_type_8 / decrypt_type_9: well-formed hashes, type-7 strings, passwords, junk
+    for i in range(40 if q else 400):
+        kind = "dec8" if i % 2 == 0 else "dec9"
+        r = rng.random()
+        if i < 4:
+            ep = ["", "$8$", "$9$abc", "0822455D0A16"][i]
+        elif r < 0.5:
+            salt = "".join(rng.choice(CISCO64) for _ in range(14))
+            ep = "$%s$%s$%s" % (rng.choice("89"), salt, cisco64(bytes(rng.randrange(256) for _ in range(32))))
+        elif r < 0.7:
+            ep = py_encode7(rng.randint(0, 52), rand_pwd(rng, rng.choice([1, 5, 20])))
+        elif r < 0.85:
+            ep = rand_pwd(rng, rng.choice([1, 8, 127]))
+        else:
+            ep = odd_pwd(rng) if rng.random() < 0.5 else rejected_pwd(rng)
+        yield mk(kind, ep=ep)
     # --- hashes (bounded: each costs a KDF at generation, in the library and in the oracle)
     for kind, n in (("h5", 100 if q else 1500), ("h8", 60 if q else 800), ("h9", 60 if q else 800)):
         for i in range(n):
@@ -318,7 +338,7 @@ def nontrivial(case):
 
 def describe(case):
     d = {"kind": case["kind"]}
-    if case["kind"] == "dec7":
+    if case["kind"] in ("dec7", "dec8", "dec9"):
         d["ep"] = case["ep"]
     elif case["kind"] == "dec7o":
         d["self_ep"], d["ep"] = case["pwd"], case["ep"]
@@ -334,6 +354,9 @@ def describe(case):
 def buckets(case, ans):
     k = case["kind"]
     out = ["kind:" + k, "answer:" + (ans if ans.startswith("err") else "ok")]
+    if k in ("dec8", "dec9"):
+        out.append(k + "-arg:" + ("hash" if case["ep"].startswith("$") else "other"))
+        return out
     if k in ("dec7", "dec7o"):
         out.append("dec7-len:" + ("odd" if len(case["ep"] or case["pwd"]) & 1 else "even"))
         return out
@@ -383,6 +406,8 @@ def impl(case):
         return _show(_call(cp.decrypt_type_7, case["ep"]))
     if k == "dec7o":
         return _show(_call(CiscoPassword(case["pwd"]).decrypt_type_7, case["ep"]))
+    if k in ("dec8", "dec9"):
+        return _show(_call(cp.decrypt_type_8 if k == "dec8" else cp.decrypt_type_9, case["ep"]))
     if k == "ref7":
         salt = int(case["salt"])
         enc = cisco_type7.using(salt=salt).hash(case["pwd"]) if salt <= 52 else py_encode7(salt, case["pwd"])
@@ -415,6 +440,12 @@ FMT = {
 def oracle(case, ans):
     k, pwd = case["kind"], case["pwd"]
     fails = []
+    if k in ("dec8", "dec9"):
+        # type 8 / 9 are one-way: whatever comes back as a value would be a made-up plaintext
+        # (which exception is raised is compared with the model only)
+        if not ans.startswith("err:"):
+            fails.append(f"decrypt_type_{k[3]} returned a value ({ans[:40]}) for a one-way hash")
+        return fails
     if k in ("dec7", "dec7o"):
         return fails
     if k != "ref7" and must_reject(pwd):
